@@ -144,6 +144,10 @@ pub struct MSet {
     pub b1: u64,
     pub t: T,
     pub empty: bool,
+    /// names of the span records the set converts to (`to_span_records`, taken at collect())
+    pub snapshot: Vec<String>,
+    /// names of the events on those records
+    pub snapshot_events: Vec<String>,
 }
 
 #[derive(Clone, Debug)]
